@@ -728,3 +728,56 @@ def polarity_findings(tree: Tree, rel: str) -> Tuple[int, List[Tuple[str, str, i
                 if x in sw and y not in sw and y in fw and x not in fw:
                     bad.append((slot, fn_, line, encl, f"{x}/{y}"))
     return len(ws), bad
+
+
+# ---------------------------------------------------------------------------------------------
+# K12 mutable statics census
+# ---------------------------------------------------------------------------------------------
+def mutable_statics(tree: Tree, prefixes: Sequence[str]) -> List[Tuple[str, int, str, str, str]]:
+    """Mutable `static` / `thread_local` variables (namespace, class or function scope) in files under the given
+    path prefixes: (file, line, enclosing function or '<scope>', variable name, declaration text)."""
+    out = []
+    for rel in tree.all_files():
+        if not any(rel.startswith(p) for p in prefixes):
+            continue
+        txt = tree.read(rel)
+        if "static" not in txt and "thread_local" not in txt:
+            continue
+        fi = tree.file(rel)
+        toks = fi.toks
+        for i, tk in enumerate(toks):
+            if not (tk.kind == "id" and tk.text in ("static", "thread_local")):
+                continue
+            if i > 0 and not (toks[i - 1].text in (";", "{", "}", ":", "inline") or toks[i - 1].kind == "pp"):
+                continue
+            if i > 0 and toks[i - 1].text == "inline" and not (i > 1 and (toks[i - 2].text in (";", "{", "}") or toks[i - 2].kind == "pp")):
+                continue
+            j = i
+            parts: List[str] = []
+            has_paren = False
+            while j < len(toks):
+                x = toks[j]
+                if x.kind == "op" and x.text in "([":
+                    if x.text == "(":
+                        has_paren = True
+                    parts.append("(..)" if x.text == "(" else "[..]")
+                    j = fi.match[j] + 1
+                    continue
+                if x.kind == "op" and x.text in (";", "{", "="):
+                    break
+                parts.append(x.text)
+                j += 1
+            if j >= len(toks):
+                continue
+            if has_paren:
+                continue  # function declaration / definition (or ctor-call initialised object, not used in this tree)
+            words = set(parts)
+            if "constexpr" in words or "consteval" in words or "assert" in " ".join(parts):
+                continue
+            if "const" in words and "mutable" not in words and "*" not in words:
+                continue
+            ids = [p for p in parts if re.fullmatch(r"[A-Za-z_]\w*", p)]
+            name = ids[-1] if ids else "?"
+            fd = enclosing_function(tree, rel, i)
+            out.append((rel, tk.line, fd.qual if fd else "<scope>", name, " ".join(parts)[:140]))
+    return out
